@@ -121,6 +121,10 @@ var propDrivers = map[string]*propDriver{
 		notes: []string{"C04's interval semantics is a bounded stand-in (exhaustive enumeration of comparator shapes on the real vers.Contains), never counted as proved; the per-function contracts of the VERS chain that are proved are listed under discharged"}},
 	"C05": {extra: func(w *World, tier string) []VC { return w.shorthandVCs() },
 		notes: []string{"C05 = proved contracts on the direct matching predicates / desugaring functions that the engine reaches (cargo caret and tilde, hex pessimistic, ...) + bounded API obligations per (ecosystem, construct) that run the real NewVersionRange+Contains against the documented interval on a grid of bases and boundary probes; the bounded obligations are stand-ins and never counted as proved"}},
+	"C07": {extra: func(w *World, tier string) []VC { return w.sortVCs() },
+		notes: []string{"the contract of slices.SortFunc (the result is a permutation of the input, sorted under a comparison that is a total preorder) is an assumed library contract; the total-preorder premise is C01"}},
+	"C16": {extra: func(w *World, tier string) []VC { return w.versInvVCs(tier) },
+		notes: []string{"C16 is a bounded stand-in (the real vers.Contains on a range and every re-spelling of it); never counted as proved"}},
 	"C10": {extra: func(w *World, tier string) []VC { return w.refOrderVCs("C10") }},
 	"C11": {extra: func(w *World, tier string) []VC { return w.refOrderVCs("C11") }},
 	"C12": {extra: func(w *World, tier string) []VC { return w.refOrderVCs("C12") }},
